@@ -155,7 +155,7 @@ def pOp (t : List String) : Option Op :=
     let c ← pCoins c
     if c.isEmpty ∨ ¬ validCoins c ∨ c.any (fun x => x.2 > 2^50) then none else pure (.fund a c)
   | "tx" :: au :: fee :: msgs =>
-    if msgs.isEmpty ∨ msgs.length > 6 then none else do
+    if msgs.length > 6 then none else do
     let au ← pAuth au
     let fee ← pCoin fee
     let ms ← msgs.mapM (pMsg au)
